@@ -96,6 +96,24 @@ class OwnCtx:
         self.I = interp
         self.kctx = kctx or K.KindCtx(interp)
         self.unknown_calls = set()
+        self.memo = {}
+        self.at = None  # (seq, loops) of the event whose operands are being classified
+
+    def visible(self, h):
+        """Heap contents of an allocation that can have been stored when the current event runs:
+        stored earlier in program order, or inside a loop the current event is also in
+        (a later store reaches it around the back edge)."""
+        els = list(zip(h.get("elts", []), h.get("elts_at", [])))
+        its = list(zip([v for _, v in h.get("items", [])], h.get("items_at", [])))
+        allv = els + its
+        if self.at is None:
+            return [v for v, _ in allv]
+        seq, loops = self.at
+        out = []
+        for v, at in allv:
+            if at is None or at[0] <= seq or (set(at[1]) & set(loops)):
+                out.append(v)
+        return out
 
 
 def _is_fancy_index(idx, ctx):
@@ -186,8 +204,51 @@ def roots(t, ctx, depth=0, seen=None):
     return {("UNKNOWN", op)}
 
 
+def _elem_terms1(x, ctx):
+    """One level: the element terms of container x, or None if x is opaque."""
+    out = []
+    for b in tm.alts(x):
+        if b.op in ("tuple", "list", "set"):
+            out.extend(b.args)
+        elif b.op == "dict":
+            out.extend(v for k, v in b.args)
+        elif b.op == "alloc":
+            out.extend(ctx.visible(ctx.I.heap.get(b, {})))
+        elif b.op in ("comp", "gen"):
+            e = b.args[1] if b.op == "comp" else b.args[0]
+            if b.op == "comp" and b.args[0] == "dict" and e.op == "tuple":
+                e = e.args[1]
+            out.append(e)
+        elif b.op == "call" and tm.callee_name(b) in CONTAINER_FUNCS and b.args[1]:
+            for a in b.args[1]:
+                sub = _elem_terms1(a, ctx)
+                if sub is None:
+                    return None
+                out.extend(sub)
+        elif b.op == "call" and tm.callee_name(b) in (".items", ".values"):
+            sub = _elem_terms1(b.args[0].args[0], ctx)
+            if sub is None:
+                return None
+            out.extend(sub)
+        else:
+            return None
+    return out
+
+
 def _element_roots(base, ctx, d, seen):
-    """Roots of an element / view of `base`."""
+    """Roots of an element / view of `base` (memoised; a term being expanded higher up
+    contributes nothing new, which cuts cycles through loop-carried containers)."""
+    key = ("el", base)
+    if key in ctx.memo:
+        r = ctx.memo[key]
+        return set() if r is None else set(r)
+    ctx.memo[key] = None  # in progress
+    out = _element_roots0(base, ctx, d, seen)
+    ctx.memo[key] = frozenset(out)
+    return out
+
+
+def _element_roots0(base, ctx, d, seen):
     out = set()
     for b in tm.alts(base):
         if b.op in ("tuple", "list", "set"):
@@ -199,13 +260,9 @@ def _element_roots(base, ctx, d, seen):
             for k, v in b.args:
                 out |= roots(v, ctx, d, seen)
         elif b.op == "alloc":
-            seen = seen or set()
-            if b in seen:
-                continue  # already being expanded higher up: contributes nothing new
-            h = ctx.I.heap.get(b, {})
-            els = list(h.get("elts", [])) + [v for _, v in h.get("items", [])]
+            els = ctx.visible(ctx.I.heap.get(b, {}))
             for e in els:
-                out |= roots(e, ctx, d, seen | {b})
+                out |= roots(e, ctx, d, seen)
             if not els:
                 out.add(FRESH)
         elif b.op in ("comp", "gen"):
@@ -220,6 +277,11 @@ def _element_roots(base, ctx, d, seen):
                 out.add(FRESH)
         elif b.op == "call" and tm.callee_name(b) in (".items", ".values"):
             out |= _element_roots(b.args[0].args[0], ctx, d, seen)
+        elif b.op in ("iter", "dval", "unpack", "sub") and _elem_terms1(b.args[0], ctx) is not None:
+            # b is itself an element of a transparent container: its elements are the elements
+            # of those inner containers
+            for c in _elem_terms1(b.args[0], ctx):
+                out |= _element_roots(c, ctx, d + 1, seen)
         else:
             for r in roots(b, ctx, d, seen):
                 if r[0] == "PARAM":
@@ -323,6 +385,8 @@ def mods(interp, ctx=None):
     out = []
     for ev in interp.events:
         k = ev.kind
+        ctx.at = (ev.seq, ev.loops)
+        ctx.memo = {}
         if k == "store_sub":
             out.append(Mod(ev, ev["base"], roots(ev["base"], ctx), "store %s[...]" % _short(ev["base"])))
         elif k == "del_sub":
@@ -358,6 +422,8 @@ def mods(interp, ctx=None):
                     out.append(Mod(ev, v, roots(v, ctx), "out= argument of %s" % nm))
             if nm == "builtins.dict.__init__" and ev["args"]:
                 pass
+    ctx.at = None
+    ctx.memo = {}
     return out
 
 
